@@ -425,6 +425,14 @@ def test_product():
     check("json lit_bs statement", M.build_insert(T("VARIANT"), "T1", [(1, jv)], "lit_bs")[0],
           "INSERT INTO T1 (ID, V) SELECT 1, PARSE_JSON(" + Q + '"it' + BS + Q + 's $name"' + Q + ")")
     check("session states", M.SESSION_STATES, ["pristine", "used"])
+    kinds = [k for k, _ in M.FAILING_STATEMENTS]
+    check("failing statements of the used session: one per route through the cursor", kinds,
+          ["single_step", "single_step_data_error", "create_with_text_length_exists", "create_with_comment_exists", "clone_missing_source",
+           "merge_missing_target", "rename_missing_table", "rename_missing_column", "ctas_data_error", "executemany"])
+    fs_ = dict(M.FAILING_STATEMENTS)
+    check("several-step statements that fail on name resolution", ["VARCHAR(10)" in fs_["create_with_text_length_exists"], "COMMENT" in fs_["create_with_comment_exists"],
+          " CLONE " in fs_["clone_missing_source"], fs_["merge_missing_target"].startswith("MERGE INTO"), " RENAME TO " in fs_["rename_missing_table"]], [True] * 5)
+    check("failing statements format", [sql.format(ph="%s", s3="S3") for _, sql in M.FAILING_STATEMENTS if "{" in sql][-1], "INSERT INTO NO_SUCH_TABLE (ID) VALUES (%s)")
     check("session variable names occur in the values", [any(("$" + n) in v or ("(" + n + ")") in v for _, v in M.ACTIVE_TOKENS) for n, _ in M.SESSION_VARIABLES], [True, True])
     # write_pandas options
     oc = M.opts_cells(T("NUMBER"))
